@@ -199,6 +199,8 @@ func driveC01(t *testing.T, out *vEmitter) {
 				// lists in unusual but legal spellings: empty elements, empty value
 				{"/oauth2/auth?allowed_emails=boss@example.com,", "authonly"}, {"/oauth2/auth?allowed_emails=,alice@example.com", "authonly"},
 				{"/oauth2/auth?allowed_emails=", "authonly"}, {"/oauth2/auth?allowed_groups=,", "authonly"}, {"/oauth2/auth?allowed_groups=nobody,,", "authonly"},
+				// the domain constraint, for credentials with and without an e-mail of the form local@domain
+				{"/oauth2/auth?allowed_email_domains=example.com", "authonly"}, {"/oauth2/auth?allowed_email_domains=elsewhere.test", "authonly"},
 				{"/oauth2/sign_in", "other"}, {"/robots.txt", "other"}, {"/ping", "other"}}
 			// endpoints that end a session (sign_in clears it) run in a second pass
 			for i := range creds {
@@ -405,6 +407,17 @@ func vC01Case(out *vEmitter, e *vEnv, v vC01Variant, redis bool, c vCred, target
 	if i := strings.Index(target, "allowed_emails="); i >= 0 {
 		ve = []string{target[i+len("allowed_emails="):]}
 	}
+	var vd []string
+	if i := strings.Index(target, "allowed_email_domains="); i >= 0 {
+		vd = []string{target[i+len("allowed_email_domains="):]}
+	}
+	if kind == "authonly" && vouched != nil && len(vd) > 0 {
+		// the session's e-mail must be local@domain with the domain listed
+		parts := strings.Split(vouched.email, "@")
+		if len(parts) != 2 || parts[1] != vd[0] {
+			authorised = false
+		}
+	}
 	if kind == "authonly" && vouched != nil {
 		if strings.Contains(target, "allowed_groups=nobody") {
 			authorised = false
@@ -446,7 +459,7 @@ func vC01Case(out *vEmitter, e *vEnv, v vC01Variant, redis bool, c vCred, target
 	out.Case("serve/"+v.name, true, vL(vY(class)),
 		vL("proxy_serve", vY(epSym), vBool(v.skipButton), vBool(v.forceJSON), vBool(bypass), vStrs(v.emailDomains), vStrs(v.allowedGroups),
 			vIdentSXopt(c.bearer), vIdentSXopt(c.basic), vIdentSXopt(c.stored), vBool(ajax), vBool(api), vStrs(vg), vStrs(ve),
-			vBool(redis && c.cookie != "" && c.stored == nil && c.label != "ticket-for-deleted-key")))
+			vBool(redis && c.cookie != "" && c.stored == nil && c.label != "ticket-for-deleted-key"), vStrs(vd)))
 	// the whole composition on the request as sent (cookie store): bypass decision from the configured rules and the
 	// peer address, the stored credential from the presented cookies through the signed-cookie model
 	if !redis && res.Panic == nil {
@@ -522,7 +535,7 @@ func vC01Case(out *vEmitter, e *vEnv, v vC01Variant, redis bool, c vCred, target
 				vBool(v.preflight), vL(routesSX...), vL(mt...), vL(vL(vS(req.URL.RequestURI()), vSome(vS(req.URL.Path)))), vL(netsSX...), vL(ipt...), vBool(false),
 				vL(vS(req.Method), vS(req.URL.RequestURI()), vS(""), vBool(false), vS(remote), vS("")),
 				vY(epSym), vBool(v.skipButton), vBool(v.forceJSON), vBool(true), vBool(true), vStrs(v.emailDomains), vStrs(v.allowedGroups),
-				vIdentSXopt(c.bearer), vIdentSXopt(c.basic), vBool(ajax), vBool(api), vStrs(vg), vStrs(ve)))
+				vIdentSXopt(c.bearer), vIdentSXopt(c.basic), vBool(ajax), vBool(api), vStrs(vg), vStrs(ve), vStrs(vd)))
 	}
 	if discloses {
 		out.Stat("disclosing_responses", 1)
